@@ -203,7 +203,37 @@ class C02(F.PropCheck):
                     if pos > len(wire): lost = rr; break
                 v.append('accepted call rr=%s was not transmitted (%d of %d bytes sent) although %d all-OK iterations followed and no overflow, '
                          'hard error or restart was reported' % (lost, len(wire), len(stream), tail))
+        # a restart is a legitimate report only of an out-buffer overflow (C02_overflow_exact): accepted calls that are
+        # dropped by a restart although every queued frame fitted below BUFFER_MAX_SIZE are lost without cause
+        if not v and restarted and not lossy and wire != stream and not self.overflow_before_restart(case, rets):
+            pos = 0; lost = None
+            for (rr, cid, payload) in accepted:
+                pos += len(frame(rr, cid, payload))
+                if pos > len(wire): lost = rr; break
+            v.append('device restarted and dropped accepted call rr=%s (%d of %d bytes sent) although the proto out buffer never overflowed '
+                     '(|out buffer| + |frame| < BUFFER_MAX_SIZE at every iteration) and no hard error / send-buffer overflow occurred'
+                     % (lost, len(wire), len(stream)))
         return v
+
+    def overflow_before_restart(self, case, rets):
+        """size bookkeeping of the out queue and the proto out buffer from the events and return values alone (it does not
+        depend on the espconn results): every ITER moves the oldest queued frame into the out buffer if it fits and then
+        takes up to SRPC_BUFFER_SIZE bytes out.  True when some queued frame did not fit before the device stopped
+        executing events (the restart happened between the last executed call and the next one)."""
+        c = consts(); q = []; outb = 0; ncall = 0
+        for e in case.evs:
+            if e[0] in ('CALL', 'DS'):
+                if ncall >= len(rets): return False       # this call was never executed: the restart came earlier
+                rr = rets[ncall]; ncall += 1
+                if rr != 0:
+                    cid, payload, _ = ev_call(e); q.append(len(frame(rr, cid, payload)))
+            elif e[0] == 'ITER':
+                if q:
+                    f = q.pop(0)
+                    if outb + f >= c['BUFFER_MAX']: return True
+                    outb += f
+                outb -= min(c['SRPC_BUFFER'], outb)
+        return False
 
     def nontrivial(self, case, io): return any(o[0] == 'WIRE' for o in io[1])
 
